@@ -91,6 +91,9 @@ class Case:
         sp = self.spec
         N, C, H, W = sp["N"], sp["C"], sp["H"], sp["W"]
         k, s, p, d = (tuple(sp[q]) for q in ("k", "s", "p", "d"))
+        # the documented int form of the geometry arguments (square geometries only); the references keep the tuples
+        A = (lambda t: int(t[0])) if sp.get("argform") == "int" else (lambda t: t)
+        kk, ss, pp, dd = A(k), A(s), A(p), A(d)
         out = E.Outcome()
         x = env.arr(self.prefix.replace(":", "_") + "x", (N, C, H, W))
         pad = env.scalar(self.prefix.replace(":", "_") + "pad", lo=-3, hi=3, kind="data")
@@ -100,8 +103,8 @@ class Case:
         cref = cols2d(uref)
         fns = {"im2col": ct.im2col, "im2col_v2": ct.im2col_v2, "im2col_fast": ct.im2col_fast}
         for nm, f in fns.items():
-            out.pair(self.prefix + nm + "(as_unfold)", f(x, k, d, s, p, pad, as_unfold=True), uref)
-            out.pair(self.prefix + nm + "(2-D)", f(x, k, d, s, p, pad, as_unfold=False), cref)
+            out.pair(self.prefix + nm + "(as_unfold)", f(x, kk, dd, ss, pp, pad, as_unfold=True), uref)
+            out.pair(self.prefix + nm + "(2-D)", f(x, kk, dd, ss, pp, pad, as_unfold=False), cref)
         y = env.arr(self.prefix.replace(":", "_") + "y", (N, C * k[0] * k[1], Lw))
         y2 = cols2d(y)
         if env.sym:
@@ -112,10 +115,10 @@ class Case:
         fref = fold_ref(y, (N, C, H, W), k, s, p, d)
         gns = {"col2im": ct.col2im, "col2im_v2": ct.col2im_v2, "col2im_fast": ct.col2im_fast}
         for nm, f in gns.items():
-            out.pair(self.prefix + nm + "(N x CkHkW x L)", f(y, (N, C, H, W), k, d, s, p), fref)
-            out.pair(self.prefix + nm + "(2-D)", f(y2, (N, C, H, W), k, d, s, p), fref)
+            out.pair(self.prefix + nm + "(N x CkHkW x L)", f(y, (N, C, H, W), kk, dd, ss, pp), fref)
+            out.pair(self.prefix + nm + "(2-D)", f(y2, (N, C, H, W), kk, dd, ss, pp), fref)
         # sliding-window extractor and its placement routine
-        win = ct.extract_windows(x, k, s, p, d, pad_value=pad)
+        win = ct.extract_windows(x, kk, ss, pp, dd, pad_value=pad)
         wref = objarr((lH, lW, N, C, k[0], k[1]))
         for i in range(lH):
             for j in range(lW):
@@ -137,19 +140,24 @@ class Case:
             wy = ar.wrap(wy, np.float32)
         else:
             wy = np.array(wy, dtype=y.dtype)
-        out.pair(self.prefix + "place_windows", ct.place_windows(wy, (N, C, H, W), k, s, p, d), fref)
+        out.pair(self.prefix + "place_windows", ct.place_windows(wy, (N, C, H, W), kk, ss, pp, dd), fref)
         # adjointness <im2col(x), y> = <x, col2im(y)>  (zero padding) for the three implementation pairs
         for (n1, f), (n2, g) in zip(fns.items(), gns.items()):
-            lhs = dot(f(x, k, d, s, p, 0, as_unfold=True), y)
-            rhs = dot(x, g(y, (N, C, H, W), k, d, s, p))
+            lhs = dot(f(x, kk, dd, ss, pp, 0, as_unfold=True), y)
+            rhs = dot(x, g(y, (N, C, H, W), kk, dd, ss, pp))
             out.pair(self.prefix + "adjoint <%s(x),y> = <x,%s(y)>" % (n1, n2), [lhs], [rhs])
         # fold(unfold(x)) = count * x
         cnt = fold_ref(np.ones((N, C * k[0] * k[1], Lw)), (N, C, H, W), k, s, p, d)
-        back = ct.col2im_fast(ct.im2col_fast(x, k, d, s, p, 0, as_unfold=True), (N, C, H, W), k, d, s, p)
         cx = objarr((N, C, H, W))
         for idx in np.ndindex(N, C, H, W):
             cx[idx] = cnt[idx] * x[idx]
-        out.pair(self.prefix + "col2im(im2col(x)) = count*x", back, cx)
+        for (n1, f), (n2, g) in zip(fns.items(), gns.items()):
+            back = g(f(x, kk, dd, ss, pp, 0, as_unfold=True), (N, C, H, W), kk, dd, ss, pp)
+            out.pair(self.prefix + "%s(%s(x)) = count*x" % (n2, n1), back, cx)
+        if sp.get("defaults"):
+            # default dilation / stride / padding (1, 1, 0) left to the callee
+            for nm, f in fns.items():
+                out.pair(self.prefix + nm + " with default geometry", f(x, kk, as_unfold=True), unfold_ref(x, k, (1, 1), (0, 0), (1, 1), 0))
         return out
 
 
@@ -170,6 +178,13 @@ def enumerate_specs(tier):
             b = dict(a, H=hw[1], W=hw[0], p=[p[1], p[0]])
             seq.append(dict(a, then=b))
     specs += seq[:: (4 if tier == "quick" else 1)]
+    # the int form of the geometry arguments, and the defaults
+    sq = [g for g in geos if all(t[0] == t[1] for t in g[1:])]
+    for idx, (hw, k, s, p, d) in enumerate(sq[:: (3 if tier == "quick" else 1)]):
+        specs.append({"N": 1 + idx % 2, "C": 1 + (idx // 2) % 2, "H": hw[0], "W": hw[1], "k": list(k), "s": list(s), "p": list(p),
+                      "d": list(d), "argform": "int"})
+    specs.append({"N": 1, "C": 2, "H": 3, "W": 4, "k": [2, 2], "s": [1, 1], "p": [0, 0], "d": [1, 1], "argform": "int", "defaults": True})
+    specs.append({"N": 2, "C": 1, "H": 3, "W": 3, "k": [2, 3], "s": [1, 1], "p": [0, 0], "d": [1, 1], "defaults": True})
     return specs
 
 
